@@ -11,6 +11,7 @@ import (
 
 	sdk "github.com/cosmos/cosmos-sdk/types"
 
+	recordmodule "mods.irisnet.org/modules/record"
 	recordkeeper "mods.irisnet.org/modules/record/keeper"
 	recordtypes "mods.irisnet.org/modules/record/types"
 
@@ -29,6 +30,10 @@ type Step struct {
 	// NoTx: the messages are executed outside a transaction (as a passed governance proposal
 	// does): ctx.TxBytes() is empty, so all such creations see the same tx hash
 	NoTx bool `json:"notx,omitempty"`
+	// Gen: the records are loaded through the module's InitGenesis (a chain started from a genesis
+	// that already holds records): each carries the hash of the empty tx bytes, and InitGenesis
+	// stores them with AddRecord, i.e. exactly like a transaction-less creation of the same records
+	Gen bool `json:"gen,omitempty"`
 }
 type History struct {
 	Counter0 uint32 // initial value of the intra-tx counter (near 2^32 in the wrap stream)
@@ -71,6 +76,31 @@ func gen(r *lib.Rand, tier, stream string, i int) History {
 		}
 		h.Steps = append(h.Steps, Step{Msgs: ms, NoTx: r.Chance(1, 2)}, Step{Block: true},
 			Step{Msgs: []Msg{{Creator: who, Contents: pool[0]}}}, Step{Block: true})
+		return h
+	}
+	if stream == "genesis" {
+		// the chain starts from a genesis holding 1-6 records; later creations outside a transaction
+		// (same tx hash as the genesis records) repeat the same contents at the same ordinal positions
+		ng := 1 + r.Intn(6)
+		who := r.Intn(3)
+		var gs []Msg
+		for j := 0; j < ng; j++ {
+			gs = append(gs, Msg{Creator: who, Contents: pool[r.Intn(2)]})
+		}
+		h.Steps = append(h.Steps, Step{Msgs: gs, Gen: true}, Step{Block: true})
+		for k := 0; k < 2+r.Intn(4); k++ {
+			var ms []Msg
+			for j := 0; j < 1+r.Intn(ng+1); j++ {
+				ms = append(ms, Msg{Creator: who, Contents: pool[r.Intn(2)]})
+			}
+			if r.Chance(1, 2) {
+				ms = append([]Msg(nil), gs[:1+r.Intn(ng)]...) // the genesis records again, in order
+			}
+			h.Steps = append(h.Steps, Step{Msgs: ms, NoTx: r.Chance(3, 4)})
+			if r.Chance(1, 2) {
+				h.Steps = append(h.Steps, Step{Block: true})
+			}
+		}
 		return h
 	}
 	if stream == "wrap" {
@@ -147,7 +177,7 @@ func exec(h History) lib.Case {
 			c.Steps = append(c.Steps, "block")
 		} else {
 			txBytes := e.NextTxBytes()
-			if st.NoTx {
+			if st.NoTx || st.Gen {
 				txBytes = nil
 			}
 			txh := sha256.Sum256(txBytes)
@@ -167,7 +197,13 @@ func exec(h History) lib.Case {
 				mterms = append(mterms, lib.Pair(lib.Z(int64(m.Creator)), coqContents(m.Contents)))
 			}
 			ctrBefore := k.GetIntraTxCounter(e.Ctx)
-			outs, ok := e.DeliverTx(txBytes, msgs...)
+			var outs []lib.Outcome
+			var ok bool
+			if st.Gen {
+				outs, ok = genesisLoad(e, k, txh[:], msgs)
+			} else {
+				outs, ok = e.DeliverTx(txBytes, msgs...)
+			}
 			lib.Stat(c.Stats, fmt.Sprintf("op:tx%d", len(msgs)))
 			if ok {
 				for j, o := range outs {
@@ -248,6 +284,40 @@ func sidx(s string) int {
 		return i
 	}
 	return 999
+}
+
+// genesisLoad runs the record module's InitGenesis on a genesis state holding the given records and
+// reports, per record, the id it is stored under (found by exporting before and after).
+func genesisLoad(e *lib.Env, k recordkeeper.Keeper, txh []byte, msgs []sdk.Msg) ([]lib.Outcome, bool) {
+	var recs []recordtypes.Record
+	for _, m := range msgs {
+		rec := m.(*recordtypes.MsgCreateRecord)
+		creator, err := sdk.AccAddressFromBech32(rec.Creator)
+		if err != nil {
+			return []lib.Outcome{{Kind: "rej"}}, false
+		}
+		recs = append(recs, recordtypes.NewRecord(txh, rec.Contents, creator))
+	}
+	ctr := k.GetIntraTxCounter(e.Ctx)
+	out := e.Try(func(ctx sdk.Context) error {
+		recordmodule.InitGenesis(ctx, k, *recordtypes.NewGenesisState(recs))
+		return nil
+	})
+	if out.Kind != "ok" {
+		return []lib.Outcome{out}, false
+	}
+	var outs []lib.Outcome
+	for j, r := range recs {
+		bz := e.App.AppCodec().MustMarshal(&r)
+		pre := make([]byte, len(bz)+4)
+		copy(pre, bz)
+		binary.BigEndian.PutUint32(pre[len(bz):], ctr+uint32(j))
+		id := sha256.Sum256(pre)
+		// InitGenesis returns no ids: the id under which the record can be read back is the one
+		// AddRecord derives; if the code stored it elsewhere the read-back below shows None
+		outs = append(outs, lib.Outcome{Kind: "ok", Resp: &recordtypes.MsgCreateRecordResponse{Id: hex.EncodeToString(id[:])}})
+	}
+	return outs, true
 }
 
 func main() {
